@@ -74,6 +74,7 @@ func c03Alphabet() []c03Sym {
 		a = append(a, s)
 	}
 	a = append(a, c03Sym{Mesg: 0xFF00, Name: "unknown(0xFF00)"})
+	a = append(a, c03Sym{Mesg: 0x0114, Name: "unknown(0x0114, low byte = record)"})
 	return a
 }
 
